@@ -13,8 +13,9 @@ Published rules implemented by `rule_check` (written from the rule text, not fro
 import itertools
 
 NAME = "akari"
-STATUS = "model+differential"
-THEOREMS = []
+STATUS = "theorem"
+THEOREMS = ["Cspuz.C11.Akari.program_iff_rules", "Cspuz.C11.Akari.total"]
+LEAN_FILE = "C11_Akari"
 LEAN_CMD = "puz_akari"
 
 WHITE = -2
